@@ -27,6 +27,11 @@ and typed `int`), so it is proved with the explicit decidable hypothesis `InInt3
 * bools, unsupported kinds — `bool_roundtrip`, `unsupported_rejected`;
 * a constant as an operand — `nonneg_not_glued`, `str_not_glued`, `sub_negative_counterexample`
   (`x - Constant(-5)` is emitted `(x--5)`);
+* a numeric constant that is stored — `carrier_stored_ok`: through conditional expressions of any
+  depth (the `double` result variables, the casts `set_var` writes, the column) every int of the
+  32-bit range, finite float and bool keeps its value (`StoredOk`: exact C++ conversions along the
+  declared types); `stored_counterexamples` (what the clause forbids), `ifexp_str_counterexample`
+  (a string arm is cast to `double`: listed finding);
 * names — `bank_roundtrip` (all strings, any surrounding text), `names_roundtrip`: ALL tree and
   branch names in the booking/fill lines regenerated from the three backends (escaped since
   c38e414); `book_lines_ok`, `name_slots_present`, `all_names_escaped`, `escape_table_ok`,
@@ -334,6 +339,78 @@ theorem const_ok_partial (c : PyConst) (hint : ∀ n, c = .int n → InInt32 n)
 theorem const_ok_counterexample : ∃ c, ¬ OutcomeOk c (renderConst c).toOption :=
   ⟨.int 3000000000, int_counterexample.2.2⟩
 
+/-! ## a numeric constant that is stored: conditional expressions, columns -/
+
+/-- A storable constant (int of the 32-bit range, finite float, bool) is emitted as a literal of
+its kind, with the type recorded for the kind. -/
+theorem storable_literal (c : PyConst) (h : StorableConst c) :
+    ∃ text, renderConst c = .ok (text, litTy c) ∧ ConstOk c text (litTy c) := by
+  cases c with
+  | str s => exact absurd h (by simp [StorableConst])
+  | other t => exact absurd h (by simp [StorableConst])
+  | int n => exact ⟨renderInt n, rfl, int_const_ok_partial n h⟩
+  | bool b => exact bool_roundtrip b
+  | float r bits =>
+    cases r with
+    | finite neg ip fp ex => exact ⟨renderFloat neg ip fp ex, rfl, float_const_ok neg ip fp ex bits h.1 h.2⟩
+    | inf b => exact absurd h (by simp [StorableConst])
+    | nan => exact absurd h (by simp [StorableConst])
+
+/-- **A constant that reaches the output through conditional expressions keeps its value.**
+For every carrier — a constant, or `a if … else b` nested to any depth — whose constants are
+storable, every constant is emitted as a literal denoting it, and the conversions it undergoes on
+its way into the column (the `double` result variable of each enclosing conditional, the
+`static_cast<double>` that `set_var` writes for an `int`/`bool` arm, the column declared with the
+expression's type) leave its value unchanged: `1 if c else 0.5` delivers 1 and 0.5, never 0.
+PARTIAL only in the ints (32-bit range: larger ones are the listed finding of `visit_Constant`). -/
+theorem carrier_stored_ok (k : Carrier) (h : ∀ c ∈ k.consts, StorableConst c) :
+    ∀ p ∈ k.columnPaths, ∃ text, renderConst p.1 = .ok (text, litTy p.1) ∧ StoredOk p.1 text p.2 := by
+  intro p hp
+  simp only [Carrier.columnPaths, List.mem_map] at hp
+  obtain ⟨q, hq, rfl⟩ := hp
+  obtain ⟨hmem, hdbl, hshape⟩ := paths_shape k q hq
+  have hs := h q.1 hmem
+  obtain ⟨text, hr, hc⟩ := storable_literal q.1 hs
+  refine ⟨text, hr, hc, ?_⟩
+  cases k with
+  | const c =>
+    simp only at hshape
+    simp only [Carrier.paths, List.mem_singleton] at hq
+    subst hq
+    exact kept_own c hs
+  | ite a b =>
+    refine kept_doubles q.1 hs _ (by simp) ?_
+    intro t ht
+    rcases List.mem_append.mp ht with h' | h'
+    · exact hdbl t h'
+    · simpa [Carrier.ty] using h'
+
+/-- What the clause forbids (the Spec is not vacuous): were the result variable of the
+conditional typed after its first arm, `1 if c else 0.5` would push 0.5 through `int`s and
+deliver 0; 0.1 through a `float` variable is no longer 0.1; -5 into a `bool` column is lost;
+300 through `double`s stays 300. -/
+theorem stored_counterexamples :
+    keptThrough (.float (.finite false [0] (some [5]) none) 4602678819172646912) [.int, .int, .int] = false ∧
+    ¬ StoredOk (.float (.finite false [0] (some [5]) none) 4602678819172646912) "0.5".toList [.int, .int, .int] ∧
+    keptThrough (.float (.finite false [0] (some [1]) none) 4591870180066957722) [.float, .double] = false ∧
+    keptThrough (.int (-5)) [.bool] = false ∧
+    keptThrough (.float (.finite false [2] (some [5]) none) 4612811918334230528) [.double, .int] = false ∧
+    StoredOk (.int 300) "300".toList [.double, .double, .double] ∧
+    StoredOk (.float (.finite false [2] (some [0]) none) 4611686018427387904) "2.0".toList [.int, .double] := by
+  decide +kernel
+
+/-- The statement of `carrier_stored_ok` for ALL constants is FALSE of the code: the result variable
+of a conditional expression is a `double` whatever the arms are, so a string arm
+(`'a' if c else 'b'`, e.g. to choose a name handed to a method) is emitted as
+`static_cast<double>("a")` — accepted, neither passed through nor refused; C++ rejects the cast. -/
+theorem ifexp_str_counterexample :
+    (Carrier.ite (.const (.str ['a'])) (.const (.str ['b']))).columnPaths =
+      [(.str ['a'], [.double, .double, .double]), (.str ['b'], [.double, .double, .double])] ∧
+    ConstOk (.str ['a']) (renderStrL pyTable ['a']) .string ∧
+    ¬ StoredOk (.str ['a']) (renderStrL pyTable ['a']) [.double, .double, .double] ∧
+    StoredOk (.str ['a']) (renderStrL pyTable ['a']) [.string] := by
+  decide +kernel
+
 /-! ## names: where strings land -/
 
 /-- **Bank names.** The collection-retrieval line is the backend's text with the whole word
@@ -414,5 +491,16 @@ example : (bookTable ++ fillTable).length = 6 := by decide
 -- on plain names every name place of every backend carries its name
 example : ∀ b ∈ bookTable ++ fillTable, ∀ segs ∈ b.2,
     slotCarries pyTable "atlas_xaod_tree".toList "jet pt".toList "_jetpt3".toList segs = true := by decide
+
+-- the model's paths on `1 if … else (0.5 if … else True)` and on a bare constant; the hypothesis is satisfiable
+example : (Carrier.ite (.const (.int 1)) (.ite (.const (.float (.finite false [0] (some [5]) none) 4602678819172646912))
+      (.const (.bool true)))).columnPaths.map (·.2) =
+    [[.double, .double, .double], [.double, .double, .double], [.double, .double, .double, .double]] := by decide
+example : (Carrier.const (.int 7)).columnPaths.map (·.2) = [[.int]] := by decide
+example : StorableConst (.int (-2147483648)) ∧ StorableConst (.bool false) ∧ ¬ StorableConst (.int 2147483648) ∧
+    StorableConst (.float (.finite false [0] (some [5]) none) 4602678819172646912) := by decide +kernel
+example : intToDbl 1 = some 4607182418800017408 ∧ intToDbl (-3) = some 13837309855095848960 ∧
+    intToDbl 2147483647 = some 4746794007244308480 ∧ dblToInt 4612811918334230528 = some 2 ∧
+    dblToInt 13837309855095848960 = some (-3) := by decide +kernel
 
 end FaxVerif.C18
